@@ -296,7 +296,9 @@ Definition check_case (c : case) : list string :=
       checkD l sys0 0 ops obs ++ (if settle_ok settle then [] else ["oracle:not-settled"])
   | CaseC limits usage n created =>
       (* every NodeClaim of the pass is created unless the pool's usage already exceeds a limit; then none is *)
-      if Nat.eqb created (if exceeded_by limits usage then 0%nat else n) then [] else ["corr:Create-ExceededBy"]
+      if exceeded_by limits usage
+      then (if Nat.eqb created 0 then [] else ["oracle:created-over-limit"])
+      else (if Nat.eqb created n then [] else ["corr:Create-ExceededBy"])
   | CaseR nodes npres =>
       (* the incrementally maintained per-pool sum equals the capacity of the nodes that are not being deleted;
          resources the map no longer lists are zero *)
